@@ -118,8 +118,12 @@ def kernel_unit(kind, n, col, spread_form, weighted):
     return Unit("C14.%s[n=%d,col=%s,spread=%s,weighted=%s]" % (kind, n, col, spread_form, weighted), h,
                 bounds={"observations": n, "single_column_input": col, "spread": spread_form, "weights": "symbolic" if weighted else "unit",
                         "ranges": "y,yhat in [0.1,40] (integers >= 1 for counts), spread in [0.2,5]",
-                        "float_stress_points": "observations x50; predictions x50; observations x1000 with predictions /20; observations x1000"}, tol=1e-6, max_paths=200,
-                stress={"scales": [{"y": 50.0}, {"yh": 50.0}, {"y": 1000.0, "yh": 0.05}, {"y": 1000.0}]} if not weighted else None)
+                        "float_stress_points": "observations x50; predictions x50; observations x1000 with predictions /20; observations x1000; predictions 1e-10 / 1e-9..1e-12"}, tol=1e-6, max_paths=200,
+                stress={"scales": [{"y": 50.0}, {"yh": 50.0}, {"y": 1000.0, "yh": 0.05}, {"y": 1000.0}],
+                        # boundary points of the prediction's domain: strictly positive but tiny means (prevalence as a
+                        # fraction of a national population), far below the symbolic range
+                        "points": [{"yh0": 1e-10}, dict(("yh%d" % i_, 10.0 ** (-9 - i_)) for i_ in range(n))],
+                        "points_only": ["loss == minus summed reference log density", "Square loss =="]} if not weighted else None)
 
 
 def typed_unit(kind, ydtype, spread):
@@ -172,7 +176,7 @@ class C14(Check):
                    "instances (e.g. log(k/(k+mu)) = log k - log(k+mu)); float constants within 1e-9.  Typed units: int64/float64 observation arrays with "
                    "Python-scalar (int, float, default) spread.  Outside the real-arithmetic claim, the fidelity pass also evaluates the real code at "
                    "float stress points (observations x1000, predictions /20) against the reference log-density.  The arrays a kernel returns are overwritten "
-                   "by the harness before the next call: loss, diff_loss, diff2Loss and residual must be unaffected.")
+                   "by the harness before the next call: loss, diff_loss, diff2Loss and residual must be unaffected.  Boundary points: the loss VALUE at tiny positive predictions (1e-9..1e-12).")
     stubs = ["scipy.stats.poisson.logpmf -> closed form y log mu - mu - lgamma(y+1) (argument roles asserted)", "scipy.special.gammaln -> lgamma UF"]
     assumptions = ["valid domain: y, yhat > 0 (integer y for count losses), spread > 0", "Normal/Square use the weights inside the residual; density identities are with unit weights",
                    "floats as reals"]
